@@ -17,6 +17,10 @@ Tie of the model (lean/PtVerif/Model/Neutron.lean) to nsf.py, checked on every r
 * direct oracle on every case: the docstring equations in 50-digit Decimal on the served table
   values and the *literal* energy tables (neutron_common.Oracle); a failure on the real code is a
   violation with a replay.
+* a second table (`neutron_common.revised_private_table`): the sweeps and random compounds once more
+  on a private table with revised densities / masses (before `nsf.init`) and neutron records (after):
+  direct queries there are the one-atom compound at that atom's density *in that table*, and its
+  energy-dependent atoms interpolate the literal tables exactly like the public ones.
 """
 from __future__ import annotations
 
@@ -33,8 +37,10 @@ RULE = ("exhaustive: every atom with neutron data x 5 wavelengths x 4 entry poin
         "without data; density or natural_density log-uniform in [1e-3, 25]; wavelength log-uniform in "
         "[0.05, 50] plus table nodes/midpoints/ends, given as wavelength=, energy=, by default or as a "
         "vector of 1..5; 20% of the scalar cases are followed by the same compound 2e-5 further (second "
-        "call); a case is non-trivial when it has >= 2 atoms, an energy-dependent atom, an ion, or a "
-        "vector; distinct by canonical input")
+        "call); the atom sweep, the energy-table sweep and 500 (quick) further random compounds are repeated on "
+        "a private table whose densities and masses were revised before nsf.init and whose neutron records "
+        "were revised after it; a case is non-trivial when it has >= 2 atoms, an energy-dependent atom, an "
+        "ion, or a vector; distinct by canonical input")
 
 WAVELENGTHS = [1.798, 0.05, 50.0, 0.7, 4.75]
 
@@ -172,10 +178,13 @@ def stage_constants(run, pt):
             run.disagree("constants", dict(name=n), m, i)
 
 
-def stage_atoms(run, pt, orc, tl, pools, quick):
-    """every atom with data alone, 4 entry points × 5 wavelengths, record-level observables"""
+def stage_atoms(run, pt, orc, tl, pools, quick, label=""):
+    """every atom with data alone, 4 entry points × 5 wavelengths, record-level observables.
+    With `label` the sweep runs on a private table (`pt` is a `TableView`): the direct queries then use the
+    number density that table's `nsf.init` derived from *its* densities and masses."""
     from periodictable import nsf
     tbl = pt.elements
+    extra = dict(private=True) if label else {}
     lines = list(tl)
     plan = []
     for (z, A) in pools.data:
@@ -222,34 +231,39 @@ def stage_atoms(run, pt, orc, tl, pools, quick):
                 r4 = nsf.neutron_sld(atom, wavelength=w)
             except Exception as e:  # noqa
                 run.violation("querying an atom that has neutron data raised %s" % type(e).__name__,
-                              dict(atoms=[[z, A, 0, 1.0]], density=atom.density, mode="wavelength", w=[w]),
+                              dict(atoms=[[z, A, 0, 1.0]], density=atom.density, mode="wavelength", w=[w], **extra),
                               site="raises")
                 continue
             if any(v is None for v in list(raw1) + list(r2) + list(raw3)) or r4 is None or any(v is None for v in r4):
                 # b_c and the number density are tabulated for this atom (b_c may be exactly 0.0)
                 run.violation("an atom that has neutron data (b_c = %r) yields None" % n.b_c,
-                              dict(atoms=[[z, A, 0, 1.0]], density=atom.density, mode="wavelength", w=[w]),
+                              dict(atoms=[[z, A, 0, 1.0]], density=atom.density, mode="wavelength", w=[w], **extra),
                               site="data-treated-as-missing")
                 continue
             r1 = nc.scat_tuple(raw1)
             r3 = nc.scat_tuple(raw3)
             N = n._number_density * 1e-24
-            key = "atom:%d:%d:%r" % (z, A, w)
-            run.count(key=key, nontrivial=True, tag="atom-sweep",
+            key = "%satom:%d:%d:%r" % (label, z, A, w)
+            run.count(key=key, nontrivial=True, tag=label + "atom-sweep",
                       sample=dict(atom=[z, A], wavelength=w) if (z, A) in ((64, 157), (1, 0)) and w == 1.798 else None)
             if not nc.scat_close(r1, m_atom, N):
                 run.disagree("Neutron.scattering", dict(atom=[z, A], wavelength=w), m_atom, r1)
             if not nc.scat_close(r3, m_cmp, N):
                 run.disagree("neutron_scattering(atom)", dict(atom=[z, A], wavelength=w), m_cmp, r3)
             # property on the real code: the four entry points agree and follow the equations
-            case = dict(atoms=[[z, A, 0, 1.0]], density=atom.density, mode="wavelength", w=[w])
+            case = dict(atoms=[[z, A, 0, 1.0]], density=atom.density, mode="wavelength", w=[w], **extra)
             bad = orc.check(r3, [((z, A, 0), 1.0)], atom.density, w)
             if bad:
                 run.violation("neutron_scattering(atom) differs from the documented equations: " + "; ".join(bad[:3]),
                               case, site="neutron_scattering")
             bad = orc.check(r1, [((z, A, 0), 1.0)], atom.density, w)
             if bad:
-                run.violation("atom.neutron.scattering differs from the one-atom compound: " + "; ".join(bad[:3]),
+                run.violation("atom.neutron.scattering differs from the one-atom compound at the atom's density%s: "
+                              % (" (private table with revised densities and masses)" if label else "") + "; ".join(bad[:3]),
+                              case, site="Neutron.scattering")
+            elif not nc.scat_close(r1, r3, N):
+                # the same clause as two calls on the real code
+                run.violation("atom.neutron.scattering differs from neutron_scattering(atom) at the atom's density",
                               case, site="Neutron.scattering")
             tot = nc.sigma_total_xs(r1)
             if not nc.sld_close([float(v) for v in r2], r1[:3], N, tot):
@@ -263,14 +277,14 @@ def stage_atoms(run, pt, orc, tl, pools, quick):
     rep = run_driver("neutron", lines)
     for i, (z, A) in enumerate(sample):
         atom = pyside.atom_of((z, A, 0), tbl)
-        run.count(key="nodata:%d:%d" % (z, A), nontrivial=False, tag="atom-without-data")
+        run.count(key="%snodata:%d:%d" % (label, z, A), nontrivial=False, tag=label + "atom-without-data")
         outs = [atom.neutron.scattering(wavelength=1.798), atom.neutron.sld(wavelength=1.798),
                 nsf.neutron_scattering(atom, density=1.0, wavelength=1.798)]
         # neutron_sld is neutron_scattering(...)[0], i.e. the first None of the triple
         if not all(tuple(o) == (None, None, None) for o in outs) or \
                 nsf.neutron_sld(atom, density=1.0, wavelength=1.798) is not None:
             run.violation("an atom without neutron data does not yield (None, None, None)",
-                          dict(atoms=[[z, A, 0, 1.0]], density=1.0, mode="wavelength", w=[1.798]), site="missing")
+                          dict(atoms=[[z, A, 0, 1.0]], density=1.0, mode="wavelength", w=[1.798], **extra), site="missing")
         if rep[i] != "missing" or rep[len(sample) + i] != "missing":
             run.disagree("missing", dict(atom=[z, A]), [rep[i], rep[len(sample) + i]], "missing")
 
@@ -282,11 +296,27 @@ def stage_ions(run, pt, orc, tl, pools, quick):
     run_cases(run, pt, orc, tl, cases, "neutron_scattering(ion)", tag="ion-sweep")
 
 
-def stage_tables(run, pt, orc, tl, pools):
+def stage_tables(run, pt, orc, tl, pools, label=""):
     """energy-dependent tables: the literal rows -> the grid (model) vs the served nsf_table; every
-    node / midpoint / outside through scattering_by_wavelength vs the literal values (oracle)"""
+    node / midpoint / outside through scattering_by_wavelength vs the literal values (oracle).
+    With `label` the table is a private one (`pt` is a `TableView`, `pools` the public pools: the atoms
+    with an energy-dependent entry are the same in every table that carries neutron data)."""
     tbl = pt.elements
+    extra = dict(private=True) if label else {}
     raw = translate.literal(translate.module_ast("periodictable/nsf_tables.py"), "ENERGY_DEPENDENT_TABLES")
+    # every atom with a literal table (and natural Lu, mixed from its isotopes) serves a table
+    entries = [(getattr(tbl, sym) if iso is None else getattr(tbl, sym)[iso]) for (sym, iso) in raw] + [tbl.Lu]
+    absent = [a for a in entries if a.neutron.nsf_table is None]
+    for a in absent:
+        z, A, _ = pyside.key_of(a)
+        run.count(key="%stable:%r" % (label, a), nontrivial=True, tag=label + "energy-table")
+        run.violation("the energy-dependent atom %r of %s has no energy table: its scattering length is served as a "
+                      "constant instead of the interpolated, end-clamped tabulated values"
+                      % (a, "a private table" if label else "the table"),
+                      dict(atoms=[[z, A, 0, 1.0]], density=1.0, mode="wavelength", w=[1.0], **extra),
+                      site="scattering_by_wavelength")
+    if absent:
+        return
     lines = list(tl)
     plan = []
     for (sym, iso), rows in raw.items():
@@ -314,23 +344,23 @@ def stage_tables(run, pt, orc, tl, pools):
         nodes = nc.parse_nodes(next(rep))
         w, b = atom.neutron.nsf_table
         served = [(float(x), float(y.real), float(y.imag)) for x, y in zip(w, b)]
-        run.count(key="table:%r" % (atom,), nontrivial=True, tag="energy-table")
+        run.count(key="%stable:%r" % (label, atom), nontrivial=True, tag=label + "energy-table")
         if len(nodes) != len(served) or not all(close(a, c) for n, s in zip(nodes, served) for a, c in zip(n, s)):
-            run.disagree("energy_dependent_init", dict(table=repr(atom)), nodes[:3], served[:3])
+            run.disagree("energy_dependent_init", dict(table=repr(atom), **extra), nodes[:3], served[:3])
         if not all(x < y for x, y in zip(w, w[1:])):
-            run.violation("energy-dependent table is not increasing in wavelength", dict(table=repr(atom)), site="table")
+            run.violation("energy-dependent table is not increasing in wavelength", dict(table=repr(atom), **extra), site="table")
     for z, A, w in queries:
         atom = pyside.atom_of((z, A, 0), tbl)
         b, s = atom.neutron.scattering_by_wavelength(w)
         m = [h2f(x) for x in next(rep).split()]
-        run.count(key="sbw:%d:%d:%r" % (z, A, w), nontrivial=True, tag="table-point")
+        run.count(key="%ssbw:%d:%d:%r" % (label, z, A, w), nontrivial=True, tag=label + "table-point")
         if not (close(m[0], b.real, abs_=1e-12) and close(m[1], b.imag, abs_=1e-12) and close(m[2], s)):
-            run.disagree("scattering_by_wavelength", dict(atom=[z, A], wavelength=w), m, [b.real, b.imag, float(s)])
+            run.disagree("scattering_by_wavelength", dict(atom=[z, A], wavelength=w, **extra), m, [b.real, b.imag, float(s)])
         want = orc.atom_b_sigma((z, A, 0), nc.dec(w))
         if not (close(float(want[0]), b.real, abs_=1e-12) and close(float(want[1]), b.imag, abs_=1e-12)
                 and close(float(want[2]), float(s))):
             run.violation("energy-dependent b_c is not the end-clamped interpolation of the tabulated values",
-                          dict(atoms=[[z, A, 0, 1.0]], density=1.0, mode="wavelength", w=[w]), site="scattering_by_wavelength")
+                          dict(atoms=[[z, A, 0, 1.0]], density=1.0, mode="wavelength", w=[w], **extra), site="scattering_by_wavelength")
 
 
 def gen_case(rng, pools):
@@ -447,6 +477,29 @@ def run(run: Run) -> int:
             cases.append(twin)
     for i in range(0, n, 5000):
         run_cases(run, pt, orc, tl, cases[i:i + 5000], "neutron_scattering")
+    # a second table: a private one whose densities and masses were revised before its neutron data were
+    # attached and whose neutron records were revised afterwards.  The equations are evaluated on what *that*
+    # table serves (its masses, records and the literal energy tables); a direct query is the one-atom compound
+    # at that atom's density in that table.
+    try:
+        T = nc.revised_private_table()
+        ptT = nc.TableView(pt, T)
+        orcT = nc.Oracle(ptT)
+        tlT = nc.table_lines(T, me_exact())
+    except Exception as e:  # noqa
+        run.violation("a private table (mass.init, density.init, revised densities and masses, nsf.init) cannot be "
+                      "set up: %s: %s" % (type(e).__name__, e), dict(private=True), site="private-table")
+    else:
+        try:
+            stage_tables(run, ptT, orcT, tlT, pools, label="private:")
+            stage_atoms(run, ptT, orcT, tlT, pools, quick, label="private:")
+            m = 500 if quick else 40000
+            pcases = [dict(gen_case(run.rng, pools), private=True) for _ in range(m)]
+            for i in range(0, m, 5000):
+                run_cases(run, ptT, orcT, tlT, pcases[i:i + 5000], "neutron_scattering(private table)", tag="private:compound")
+        except Exception as e:  # noqa
+            run.violation("calculations on a private table raise %s: %s" % (type(e).__name__, e), dict(private=True),
+                          site="private-table")
     # replay consistency: the first cases once more at the end of the run – a result must not depend on
     # what was computed in between (stale or poisoned state)
     run_cases(run, pt, orc, tl, FIXED_CASES + cases[:300], "neutron_scattering", tag="again")
@@ -463,12 +516,20 @@ def replay(data) -> int:
     orc = nc.Oracle(pt)
     tl = nc.table_lines(pt.elements, me_exact())
     recs = data.get("violations", []) + data.get("disagreements", [])
+    pub = (pt, orc, tl)
     for v in recs:
         case = v["input"]
         print("input:", case)
         if "mode" not in case:
             print("  (record-level observation; rerun the check to reproduce)")
             continue
+        pt, orc, tl = pub
+        if case.get("private"):
+            print("  (on the private table of neutron_common.revised_private_table(); a direct query of the atom is "
+                  "atom.neutron.scattering(wavelength=w))")
+            pt = nc.TableView(pub[0], nc.revised_private_table())
+            orc = nc.Oracle(pt)
+            tl = nc.table_lines(pt.elements, me_exact())
         density, atoms, real, ws = eval_real(pt, case)
         rep = run_driver("neutron", tl + [model_line(case, density, atoms)])[0]
         model = model_outcomes(case, rep)
@@ -481,4 +542,11 @@ def replay(data) -> int:
             print("    model :", model[i])
             print("    oracle:", want)
             print("    oracle verdict:", orc.check(r, atoms, density, lam) or "property holds here")
+            if len(atoms) == 1 and atoms[0][0][2] == 0 and atoms[0][1] == 1.0 and case["mode"] == "wavelength":
+                # the direct query of that atom (it answers at the atom's own density in its table)
+                a = pyside.atom_of(atoms[0][0], pt.elements)
+                if a.density is not None and close(a.density, density):
+                    d = nc.scat_tuple(a.neutron.scattering(wavelength=ws[i]))
+                    print("    direct query atom.neutron.scattering:", d)
+                    print("    direct query verdict:", orc.check(d, atoms, density, lam) or "property holds here")
     return 0
